@@ -201,11 +201,11 @@ class ExprMixin:
     def unopt(self, v, st, node=None):
         """Use an Optional value as a plain one: obligation that it is not None."""
         if isinstance(v, OptV):
-            self.oblige(st, f"safe:not-none@{getattr(node, 'lineno', '?')}", z3.Not(v.none), "safety")
+            self.oblige(st, f"safe:not-none@{self.ntag(node)}", z3.Not(v.none), "safety")
             st.assume(z3.Not(v.none))
             return v.val
         if v is None:
-            self.oblige(st, f"safe:not-none@{getattr(node, 'lineno', '?')}", z3.BoolVal(False), "safety")
+            self.oblige(st, f"safe:not-none@{self.ntag(node)}", z3.BoolVal(False), "safety")
         return v
 
     def ev_BinOp(self, e, st):
@@ -245,7 +245,7 @@ class ExprMixin:
         ta, ka = znum(a)
         tb, kb = znum(b)
         if isinstance(op, ast.Div):
-            self.oblige(st, f"safe:div-nonzero@{getattr(node, 'lineno', '?')}", tb != 0, "safety")
+            self.oblige(st, f"safe:div-nonzero@{self.ntag(node)}", tb != 0, "safety")
             return [(Sym(to_real(ta) / to_real(tb), "real"), st)]
         if ka == "int" and kb == "int":
             if isinstance(op, ast.Add):
@@ -287,7 +287,7 @@ class ExprMixin:
             return [(Sym(r, "real"), st)]
         if isinstance(op, ast.Mod):
             # real modulo, positive modulus: x - m*k with 0 <= . < m
-            self.oblige(st, f"safe:mod-positive@{getattr(node, 'lineno', '?')}", rb > 0, "safety")
+            self.oblige(st, f"safe:mod-positive@{self.ntag(node)}", rb > 0, "safety")
             k = fresh("k", I)
             r = ra - rb * to_real(k)
             st.assume(r >= 0, r < rb)
@@ -356,6 +356,8 @@ class ExprMixin:
         return {ast.Lt: ta < tb, ast.LtE: ta <= tb, ast.Gt: ta > tb, ast.GtE: ta >= tb}[type(op)]
 
     def equal(self, a, b, st, node=None):
+        if isinstance(a, SliceV) or isinstance(b, SliceV):
+            return False
         if isinstance(a, SlotTy) or isinstance(b, SlotTy):
             s, o = (a, b) if isinstance(a, SlotTy) else (b, a)
             if isinstance(o, str):
@@ -457,7 +459,7 @@ class ExprMixin:
             v = self.unopt(v, st, node)
         if isinstance(v, SlotTy):
             # attribute of slot.type: must be a Pulse
-            self.oblige(st, f"safe:slot-type-is-pulse@{getattr(node, 'lineno', '?')}", v.kind == 2, "safety")
+            self.oblige(st, f"safe:slot-type-is-pulse@{self.ntag(node)}", v.kind == 2, "safety")
             st.assume(v.kind == 2)
             v = Sym(v.pulse, ("ref", "Pulse"))
         if isinstance(v, Sym) and is_ref_ty(v.ty):
@@ -507,7 +509,7 @@ class ExprMixin:
             if sl.step is None and sl.upper is None and sl.lower is not None and not sv.rev:
                 def g(lo, s2):
                     lo_t, _ = znum(lo)
-                    self.oblige(s2, f"safe:slice-lower-in-range@{node.lineno}", z3.And(lo_t >= 0, lo_t <= sv.n), "safety")
+                    self.oblige(s2, f"safe:slice-lower-in-range@{self.ntag(node)}", z3.And(lo_t >= 0, lo_t <= sv.n), "safety")
                     j = z3.Int("j!sl")
                     arr = z3.Lambda([j], z3.Select(sv.arr, j + lo_t))
                     return [(SeqV(sv.n - lo_t, arr, sv.ety), s2)]
@@ -524,6 +526,11 @@ class ExprMixin:
     def index(self, v, k, st, node):
         if isinstance(v, OptV):
             v = self.unopt(v, st, node)
+        if isinstance(k, SliceV):
+            if (k.lo, k.hi, k.step) == (None, None, -1) and isinstance(v, (ListLoc, SeqV)):
+                sv = self.as_seq(v, st)
+                return [(SeqV(sv.n, sv.arr, sv.ety, not sv.rev), st)]
+            raise OutOfSubset("general slice value", node)
         if isinstance(v, Sym) and is_ref_ty(v.ty):
             return self.call_method(v, v.ty[1], "__getitem__", [k], {}, st, node)
         if isinstance(v, (ListLoc, SeqV)):
